@@ -11,9 +11,9 @@ Proof. intros H. unfold extract_bytes. rewrite H. reflexivity. Qed.
 
 Theorem extract_bytes_legal rel maxd s items :
   cs_lex rel maxd s = Ok (flatten items) ->
-  items <> [] -> wf_items items = true -> legal_walk items = true ->
+  wf_items items = true -> legal_walk items = true ->
   extract_bytes rel maxd s = Ok (tokens_spec items).
-Proof. intros L NE WF LG. rewrite (extract_bytes_lexed _ _ _ _ L). apply extract_legal; assumption. Qed.
+Proof. intros L WF LG. rewrite (extract_bytes_lexed _ _ _ _ L). apply extract_legal; assumption. Qed.
 
 Theorem extract_bytes_illegal rel maxd s items :
   cs_lex rel maxd s = Ok (flatten items) ->
